@@ -596,6 +596,102 @@ def imm_values(owner, as_doc, only=None):
     return vals
 
 
+# ------------------------------------------------------------------ trusted / short-cut entry points
+
+TRUSTED_ENTRIES = ("Deserializer", "function", "from_trusted_data", "from_trusted_kwargs", "trust_supplied_values")
+TRUSTED_MAPPERS = ("none", "rename", "lower", "camel")
+TRUSTED_SHAPES = ("flat", "byvalue", "optional", "enumarray", "nested", "many", "deep")
+
+
+def build_trusted(shape, mapper):
+    """hand-built classes for the trusted paths (`direct_trusted_mapping=True`, `from_trusted_data`,
+    `trust_supplied_values`): enum.Enum-backed Enum fields (by name / by value / optional / in an Array), nested
+    classes, arrays of nested classes, two levels of nesting x no mapper / a renaming dict / TO_LOWERCASE / TO_CAMELCASE.
+    Returns (class, document for the mapper-less key names)"""
+    import enum as _enum
+    import typedpy as T
+    from typedpy import mappers as M
+    Color = _enum.Enum("Color", {"RED": 1, "GREEN": 2})
+    Size = _enum.Enum("Size", {"small": "S", "large": "L"})
+
+    def with_mapper(body, renames):
+        if mapper == "rename":
+            body["_serialization_mapper"] = dict(renames)
+        elif mapper == "lower":
+            body["_serialization_mapper"] = M.TO_LOWERCASE
+        elif mapper == "camel":
+            body["_serialization_mapper"] = M.TO_CAMELCASE
+        return body
+    inner = type("TInner", (Structure,), with_mapper(
+        {"color": T.Enum[Color], "label": T.String(), "nums": T.Array[T.Integer], "_required": ["color"]}, {"label": "lbl"}))
+    key = (lambda k: k.upper() if mapper == "lower" else k)
+    ren = (lambda k, to: to if mapper == "rename" else key(k))
+    idoc = lambda c, **kw: dict({key("color"): c}, **{ren(k, "lbl") if k == "label" else key(k): v for k, v in kw.items()})
+    if shape == "flat":
+        cls = type("TFlat", (Structure,), with_mapper({"i": T.Integer(), "color": T.Enum[Color], "tags": T.Array[T.String],
+                                                       "_required": ["i", "color"]}, {"color": "colour"}))
+        doc = {key("i"): 1, ren("color", "colour"): "RED", key("tags"): ["a", "b"]}
+    elif shape == "byvalue":
+        cls = type("TByValue", (Structure,), with_mapper(
+            {"name": T.String(), "size": T.Enum(values=Size, serialization_by_value=True)}, {"size": "sz"}))
+        doc = {key("name"): "n", ren("size", "sz"): "L"}
+    elif shape == "optional":
+        cls = type("TOptional", (Structure,), with_mapper(
+            {"color": T.AnyOf[T.Enum[Color], T.NoneField], "size": T.Enum(values=Size, serialization_by_value=True),
+             "n": T.Integer(), "_required": ["n"]}, {"n": "num"}))
+        doc = {key("color"): "GREEN", key("size"): "S", ren("n", "num"): 3}
+    elif shape == "enumarray":
+        cls = type("TEnumArray", (Structure,), with_mapper(
+            {"colors": T.Array[T.Enum[Color]], "color": T.Enum[Color], "_required": ["colors"]}, {"colors": "cs"}))
+        doc = {ren("colors", "cs"): ["RED", "GREEN"], key("color"): "RED"}
+    elif shape == "nested":
+        cls = type("TNested", (Structure,), with_mapper({"inner": inner, "count": T.Integer()}, {"count": "cnt"}))
+        doc = {key("inner"): idoc("RED", label="a", nums=[1, 2]), ren("count", "cnt"): 2}
+    elif shape == "many":
+        cls = type("TMany", (Structure,), with_mapper({"many": T.Array[inner], "color": T.Enum[Color], "_required": ["many"]},
+                                                      {"many": "lots"}))
+        doc = {ren("many", "lots"): [idoc("GREEN"), idoc("RED", label="z", nums=[3])], key("color"): "GREEN"}
+    else:
+        mid = type("TMid", (Structure,), with_mapper({"inner": inner, "many": T.Array[inner], "size": T.Enum(values=Size)},
+                                                     {"size": "sz"}))
+        cls = type("TDeep", (Structure,), with_mapper({"mid": mid, "mids": T.Array[mid], "_required": ["mid"]}, {"mids": "ms"}))
+        mdoc = lambda: {key("inner"): idoc("RED", nums=[1]), key("many"): [idoc("GREEN", label="q")], ren("size", "sz"): "small"}
+        doc = {key("mid"): mdoc(), ren("mids", "ms"): [mdoc(), mdoc()]}
+    return cls, doc
+
+
+def trusted_situation(case):
+    shape, mapper, entry = case["trusted"]
+    cls, doc = build_trusted(shape, mapper)
+    if entry in ("from_trusted_data", "from_trusted_kwargs", "trust_supplied_values"):
+        # these take field names, not mapped keys, and already-typed values are the caller's business
+        cls, doc = build_trusted(shape, "none")
+    ignore = []
+
+    def call():
+        if entry == "Deserializer":
+            x = Deserializer(cls).deserialize(doc, direct_trusted_mapping=True)
+        elif entry == "function":
+            x = deserialize_structure(cls, doc, direct_trusted_mapping=True)
+        elif entry == "from_trusted_data":
+            x = cls.from_trusted_data(doc, ignore_props=ignore)
+        elif entry == "from_trusted_kwargs":
+            x = cls.from_trusted_data(None, **doc)
+        else:
+            cls.trust_supplied_values(True)
+            try:
+                x = cls(**doc)
+            finally:
+                cls.trust_supplied_values(False)
+        # reading the instance back is part of the history (lazy conversions would show up here)
+        try:
+            Serializer(x).serialize()
+        except Exception:
+            pass
+        return x, doc, lambda: ""
+    return Situation([doc, ignore], doc, "any", call)
+
+
 # ------------------------------------------------------------------ situations (one fresh world per call)
 
 class Situation:
@@ -679,11 +775,13 @@ def _mapper_arg(case, decl):
 def oracle_only(case):
     """cases whose result the heap model does not describe (keys renamed by camel_case_convert): argument
     snapshots and the poke oracle only"""
-    return bool(case.get("camel"))
+    return bool(case.get("camel")) or bool(case.get("trusted"))
 
 
 def situation(case):
     op = case["op"]
+    if isinstance(case.get("trusted"), list):
+        return trusted_situation(case)
     if op == "convert":
         doc = copy.deepcopy(case["doc"])
         mappings = [_mapping_of(m) for m in case["mappings"]]
@@ -822,6 +920,10 @@ def situation(case):
         sit = Situation([doc, mapper], doc, shape, None)
 
         def call():
+            if case.get("trusted"):
+                x = Deserializer(cls).deserialize(doc, direct_trusted_mapping=True) if case.get("via") != "function" \
+                    else deserialize_structure(cls, doc, direct_trusted_mapping=True)
+                return x, doc, lambda: ""
             if case.get("via") == "function":
                 x = deserialize_structure(cls, doc, mapper=mapper, camel_case_convert=bool(case.get("camel")),
                                           keep_undefined=bool(case.get("keepUndefined", True)))
@@ -959,7 +1061,8 @@ def run_impl(case):
         _, vis, fp2 = s2.call()
         return vis, fp2
     try:
-        hits = AP.poke_oracle(make, limit=case.get("pokeLimit", 300))
+        # (the trusted paths store what they are given, by contract: only the argument snapshots are judged there)
+        hits = [] if case.get("trusted") else AP.poke_oracle(make, limit=case.get("pokeLimit", 300))
     except Exception as e:
         res["poke_error"] = f"{type(e).__name__}: {e}"[:300]
         hits = []
@@ -1022,6 +1125,8 @@ def judge(case, impl, model):
     if impl.get("world_same") is False:
         fails.append((f"other-class-changed:{op}", f"{op} on one class changed what ANOTHER class over the same field kinds "
                       f"maps to (schema / generated code of the sibling class differ before and after the call)"))
+    if case.get("trusted"):
+        return None, fails
     if model.get("skip") and not immutable_output(case) and not oracle_only(case):
         return None, fails
     if not model.get("skip") and model.get("argsSame") != impl.get("args_same"):
@@ -1137,6 +1242,9 @@ def _norm_key(k):
         return str(bool(k["f"][0]))
     if isinstance(k, dict) and "e" in k:
         return str(k["e"][1])          # an Enum key field turns the member's name into the member
+    if isinstance(k, dict) and "t" in k:
+        # a Tuple key field normalises every element the same way: ('M', GREEN) and (Size.M, GREEN) merge
+        return "(" + ",".join(str(_norm_key(x)) for x in k["t"]) + ")"
     return k if isinstance(k, str) else json.dumps(k, sort_keys=True, default=str)
 
 
@@ -1237,6 +1345,8 @@ def _gen_cases(rng, tier, n_classes):
         doc = SD.dedupe_doc({"m": [[k, SD.to_doc(fd.get(k), v)] for k, v in kw]})
         cases.append(dict(base, op="deserialize", doc=doc))
         cases.append(dict(base, op="deserialize", doc=doc, keepUndefined=False))
+        # the trusted short cut on the same class and document (only the argument snapshot is judged; ineligible classes raise)
+        cases.append(dict(base, op="deserialize", doc=doc, trusted=True, via=("function" if ci % 2 else "Deserializer")))
         # the mapper argument in each accepted form x camel_case_convert, class wrappers and function-level API
         form, camel = rng.choice(["dict", "list", "none"]), rng.random() < 0.5
         cases.append(dict(base, op="deserialize", doc=doc, via="function", mapper=form, camel=camel))
@@ -1576,6 +1686,32 @@ def directed_cases():
     dflt = dict(_cls("Dflt", [["s", STR], ["n", INT]], required=["n"], addl=True), defaults=[["s", "x"]])
     out.append({"suite": "alias", "op": "toSchema", "cls": dflt})
     out.append({"suite": "alias", "op": "schemaToCode", "cls": dflt})
+    # multi-field wrappers with SEVERAL container options, elements of one collection taking different options
+    # (the model picks per element by the value's shape), behind AnyOf / OneOf / AllOf, every operation
+    mapd = {"k": "mapOf", "key": STR, "val": ARR_INT}
+    for wk in ("anyOf", "oneOf"):
+        w = {"k": wk, "fields": [ARR_INT, mapd, STR]}
+        het = _cls(f"Het_{wk}", [["xs", {"k": "seqOf", "item": copy.deepcopy(w)}], ["one", copy.deepcopy(w)],
+                                 ["m", {"k": "mapOf", "key": STR, "val": copy.deepcopy(w)}],
+                                 ["opt", {"k": "anyOf", "fields": [{"k": "noneF"}, mapd, ARR_INT]}]])
+        hkw = [["xs", {"l": [{"l": [1, 2]}, {"m": [["k", {"l": [3]}]]}, "s", {"l": []}]}], ["one", {"m": [["k", {"l": [1]}]]}],
+               ["m", {"m": [["a", {"l": [1]}], ["b", {"m": [["k", {"l": [2]}]]}], ["c", "s"]]}], ["opt", {"l": [7]}]]
+        for op in ("construct", "serialize", "fastSerialize"):
+            out.append({"suite": "alias", "op": op, "cls": het, "kw": hkw})
+        out.append({"suite": "alias", "op": "deserialize", "cls": het, "doc": {"m": hkw}})
+        for nm, v in hkw:
+            out.append({"suite": "alias", "op": "setattr", "cls": het, "kw": hkw, "field": nm, "value": v})
+            out.append({"suite": "alias", "op": "fieldSerialize", "cls": het, "kw": hkw, "field": nm})
+        # the same declarations owned by an ImmutableStructure
+        out.append({"suite": "alias", "op": "construct", "cls": dict(het, name=f"HetImm_{wk}", immutable=True), "kw": hkw})
+        out.append({"suite": "alias", "op": "serialize", "cls": dict(het, name=f"HetImm_{wk}", immutable=True), "kw": hkw})
+    # the trusted / short-cut entry points x classes with Enum fields, nested classes, arrays of nested classes x mappers
+    for shp in TRUSTED_SHAPES:
+        for mp in TRUSTED_MAPPERS:
+            for entry in ("Deserializer", "function"):
+                out.append({"suite": "alias", "op": "deserialize", "trusted": [shp, mp, entry]})
+        for entry in ("from_trusted_data", "from_trusted_kwargs", "trust_supplied_values"):
+            out.append({"suite": "alias", "op": "construct", "trusted": [shp, "none", entry]})
     # every public entry point that no operation stream above exercises (harness/suites/alias_api.py)
     out += API.api_cases()
     return out
